@@ -1245,10 +1245,12 @@ func (graph *Graph) recomputeNodeParallel(ctx context.Context, n INode) (err err
 		graph.queueUpdateHandlers(true, nn.id, handlers)
 	}
 
-	// note we lock recomputeMu rather than the recompute heap's own mutex;
+	// note we lock recomputeMu, not just the recompute heap's own mutex;
 	// it is the lock that also guards bind structural mutation, so that
 	// reading children's heights/staleness here is mutually exclusive with
-	// a concurrent bind rewriting that same state.
+	// a concurrent bind rewriting that same state. The heap itself is still
+	// entered through its own mutex: a sibling that fails or panics re-queues
+	// itself (recomputeFailed, recomputePanicked) holding only that one.
 	graph.recomputeMu.Lock()
 	for _, c := range nn.children {
 		cn := c.Node()
@@ -1256,7 +1258,7 @@ func (graph *Graph) recomputeNodeParallel(ctx context.Context, n INode) (err err
 			cn.childChangedNotifier.ChildChanged(n)
 		}
 		if shouldRecomputeChild(cn, graph.stabilizationNum) {
-			graph.recomputeHeap.addNodeUnsafe(c)
+			graph.recomputeHeap.add(c)
 		}
 	}
 	graph.recomputeMu.Unlock()
